@@ -1,6 +1,7 @@
 package main
 
 import (
+	"sort"
 	"encoding/hex"
 	"errors"
 	"fmt"
@@ -424,6 +425,8 @@ func (x *dbExec) step(db *simpledb.DB, s dbStep, g int) (*simpledb.DB, error) {
 		x.argClassCall(db, s, g)
 	case "crashcheck":
 		x.crashCheck(db, s)
+	case "tornreopen":
+		x.tornReopen(db, s)
 	case "sched":
 		x.sched(db, s)
 	case "window":
@@ -600,6 +603,52 @@ func (x *dbExec) crashCheck(db *simpledb.DB, s dbStep) {
 	defer os.RemoveAll(img)
 	res := readImage(img, x.keys, s.K, 20*time.Second)
 	x.rec.emit(M{"t": "crashobs", "ok": res.Ok, "err": res.Err, "m": res.M})
+}
+
+// C19: a copy of the live directory whose newest WAL file is cut inside its last record (what a kill leaves with a buffered log) is
+// opened IN THIS PROCESS, read and closed; afterwards nothing under that copy may be open or mapped any more.
+func (x *dbExec) tornReopen(db *simpledb.DB, s dbStep) {
+	atomic.AddInt32(&x.rec.barrier, 2)
+	db.VerifFlushBarrier()
+	img := x.dir + "-torn"
+	os.RemoveAll(img)
+	if err := copyTree(x.dir, img); err != nil {
+		x.rec.emit(M{"t": "note", "name": "tornreopen copy failed: " + err.Error()})
+		return
+	}
+	defer os.RemoveAll(img)
+	ws, _ := filepath.Glob(filepath.Join(img, simpledb.WriteAheadFolder, "*.wal"))
+	sort.Strings(ws)
+	cut := false
+	if len(ws) > 0 {
+		if st, err := os.Stat(ws[len(ws)-1]); err == nil && st.Size() > 12 {
+			cut = os.Truncate(ws[len(ws)-1], st.Size()-3) == nil
+		}
+	}
+	atomic.StoreInt32(&x.rec.muted, 1)
+	atomic.StoreInt32(&x.rec.opening, 1)
+	d2, err := simpledb.NewSimpleDB(img, simpledb.DisableCompactions())
+	oerr := ""
+	if err == nil {
+		if err = d2.Open(); err == nil {
+			for _, k := range x.keys {
+				d2.GetBytes(k)
+			}
+			err = d2.Close()
+		}
+	}
+	atomic.StoreInt32(&x.rec.opening, 0)
+	atomic.StoreInt32(&x.rec.muted, 0)
+	if err != nil {
+		oerr = err.Error()
+	}
+	fds, maps := countFds(img), countMaps(img)
+	for try := 0; try < 200 && (fds != 0 || maps != 0); try++ {
+		time.Sleep(2 * time.Millisecond)
+		fds, maps = countFds(img), countMaps(img)
+	}
+	x.rec.emit(M{"t": "note", "name": fmt.Sprintf("tornreopen: newest WAL file cut=%v, open/close error=%q", cut, oerr)})
+	x.rec.emit(M{"t": "libobs", "case": -1, "closed": true, "fds": fds, "maps": maps, "bound": 0, "what": "database on a directory with a torn WAL tail, after Close"})
 }
 
 // quiescent-point observation of descriptors, mappings and goroutines that belong to the database directory / the module (C19)
